@@ -57,6 +57,7 @@ def run_case(case, cdir, detail):
         try:
             trip = list(ret[0].triplet_scores)
             rec["pairs"] = [[str(x), str(y)] for x, y, _ in trip]
+            rec["scores"] = [float(z) for _, _, z in trip]
             if detail:
                 rec["triplets"] = [[str(x), str(y), float(z)] for x, y, z in trip]
         except Exception as e:
